@@ -211,7 +211,7 @@ def replay_transition(case) -> List[Tuple[str, Dict[str, Any], str]]:
     pre_ok = not within_clamp(state["graph"]["edges"], lo, hi)
 
     def F(clause, msg, **sig):
-        fails.append((clause, dict(op=op, **sig), msg))
+        fails.append((clause, dict(sig), msg))
 
     # ---- run the operation -----------------------------------------------------------------
     metrics = None
@@ -449,7 +449,7 @@ CLAMPS_N = [(-3 * D // 4, -D // 4)]
 def base_consts(**over) -> Dict[str, Any]:
     c = {"NN": 3, "NLow": 2, "D": D, "Modes": ["additive", "proportional"], "AlphaDens": [8, 2],
          "Clamps": clamp_def(CLAMPS_0), "Floors": [0, D // 8], "Thresholds": [0], "TopKs": [3], "PairCaps": [2],
-         "Maints": Def(tla_set([M1])), "InitGraphs": Def(tla_set(["<<>>"])), "ItemIds": seq_def([1, 2, 6]),
+         "Maints": Def(tla_set([M1])), "InitGraphs": Def(tla_set(["<<>>"])), "InitGates": [True], "ItemIds": seq_def([1, 2, 6]),
          "Scores": seq_def([D]), "MaxItems": 3, "Dts": [0, 1],
          "Ops": ["observe", "tick", "merge", "split", "promote", "gate"], "MaxDepth": 3,
          "Tolerate": Def("{}"), "CheckPerms": False}
